@@ -111,7 +111,7 @@ for fk in ("cc", "ss"):
     cfg("MC_sched_p_%s.cfg" % fk, sched_consts(FieldAlpha="<- AlphaSchedP", Aliases='= {""}', Conds='= {"A"}', MaxSel="= 6", MaxDepth="= 4", WithFaults="= FALSE", **FLAGSETS[fk]), SCHED_INV, spec="SpecS")
 # a non-null mutation root whose value the scalar's own output coercion turns into null
 for fk in ("cc", "ss"):
-    cfg("MC_sched_mcs_%s.cfg" % fk, sched_consts(FieldAlpha="<- AlphaCsM", OpTypes='= {"mutation"}', Aliases='= {""}', MaxSel="= 3", WithFaults="= TRUE", **FLAGSETS[fk]), SCHED_INV, spec="SpecS")
+    cfg("MC_sched_mcs_%s.cfg" % fk, sched_consts(FieldAlpha="<- AlphaCsM", OpTypes='= {"mutation"}', Aliases='= {""}', MaxSel="= 3", WithFaults="= TRUE", MaxFaults=("= 2" if fk == "ss" else "= 1"), **FLAGSETS[fk]), SCHED_INV, spec="SpecS")
 cfg("MC_sched_live.cfg", sched_consts(FieldAlpha="<- AlphaSchedF", Aliases='= {""}', MaxSel="= 3", WithFaults="= TRUE", SeqFields="<- SomeFieldNames", LConc="= FALSE"), SCHED_R1, spec="FairSpecS", props=["Termination"], extra="VIEW NoHist")
 
 # ---- C15: several requests in flight ------------------------------------------------------
